@@ -81,6 +81,23 @@ def run (op : String) (args impl : List String) : Outcome :=
       same := some (showNatList m == e),
       tags := ["expand"] ++ (if selected.length ≥ 2 then ["multi"] else []) ++
         (if ls.any (fun l => l.any (fun c => ShEval.isMeta c || c == 39 || c == 92)) ∧ ps.any (fun p => p.head? == some 123) then ["nt"] else []) }
+  | "pexpand", [parts, query, delim, items, sel], [got] =>
+    -- the same expansion through the real terminal (lib/procs_expand.py): the words /bin/sh received
+    let ps := parseStrList parts
+    let ls := parseStrList items
+    let indexed := ls.zipIdx
+    let cur := indexed.head?
+    let selected : List (Str × Nat) := if sel == "-" then cur.toList else (parseNatList sel).filterMap fun k => indexed[k]?
+    let cx : Ctx := { query := parseNatList query, current := cur, selected, delim := Pat.parseDelim delim, isSpace := Tok.isSpace }
+    let exps := ps.map (expectedWords cx)
+    match (if exps.all Option.isSome then some (exps.filterMap id).flatten else none) with
+    | none => { model := "?", same := some true, tags := ["pexpand"] }
+    | some ws =>
+      -- an expansion to nothing contributes no word
+      let ws := ws
+      { model := showStrList ws,
+        spec := if parseStrList got == ws then specOk else specFail s!"[C12] the shell received {got}, the placeholders stand for {showStrList ws}",
+        tags := ["pexpand"] ++ (if sel == "-" then ["nosel"] else ["sel"]) ++ (if ps.length ≥ 2 then ["nt"] else []) }
   | _, _, _ => { model := "bad-op", spec := if impl.head? == some "crash" then specFail "[C12] expansion crashed" else none }
 
 end Driver.Quote
